@@ -229,6 +229,123 @@ def uniqueLoop : List PyVal → List PyVal → List PyVal → Bool
     else
       if us.any (typedEq x) then false else uniqueLoop xs hs (x :: us)
 
+/-! ### `==` over containers that may hold a signalling Decimal NaN
+
+`Decimal('sNaN') == x` signals `InvalidOperation` for every number `x`; inside containers the exception surfaces
+exactly when Python's element-by-element comparison reaches such a pair: lists compare lengths first, tuples (and
+dataclass / NamedTuple instances, which compare as tuples of their fields) compare their common prefix first, dicts
+compare sizes, then the values key by key.  `none` = the comparison raises `InvalidOperation`. -/
+
+mutual
+def snanInside : PyVal → Bool
+  | .decimal .snan => true
+  | .list _ xs => snanInsideL xs
+  | .tuple _ xs => snanInsideL xs
+  | .set _ xs => snanInsideL xs
+  | .dict _ kvs => snanInsideKV kvs
+  | .just _ v => snanInside v
+  | .inst _ _ _ _ vs => snanInsideL vs
+  | .sub _ v => snanInside v
+  | _ => false
+termination_by structural x => x
+def snanInsideL : List PyVal → Bool
+  | [] => false
+  | x :: xs => snanInside x || snanInsideL xs
+termination_by structural x => x
+def snanInsideKV : List (PyVal × PyVal) → Bool
+  | [] => false
+  | (k, v) :: rest => snanInside k || snanInside v || snanInsideKV rest
+termination_by structural x => x
+end
+
+def eqScalarO (a b : PyVal) : Option Bool :=
+  match pyEqX a b with
+  | .ok r => some r
+  | .error _ => none
+
+mutual
+def deepEqO : PyVal → PyVal → Option Bool
+  | .sub _ a, b => deepEqO a b
+  | .list _ xs, b =>
+    match b.unsub with
+    | .list _ ys => if xs.length != ys.length then some false else deepEqOL xs ys
+    | _ => some false
+  | .tuple _ xs, b =>
+    match b.unsub with
+    | .tuple _ ys => deepEqOL xs ys
+    | .inst _ _ c _ vs => if c.kind == 2 then deepEqOL xs vs else some false
+    | _ => some false
+  | .dict _ kvs, b =>
+    match b.unsub with
+    | .dict _ kvs' => if kvs.length != kvs'.length then some false else deepEqOD kvs kvs'
+    | _ => some false
+  | .just _ x, b => match b.unsub with | .just _ y => deepEqO x y | _ => some false
+  | .inst oid _ c _ vs, b =>
+    match b.unsub with
+    | .inst oid' _ c' _ vs' =>
+      if c.kind == 2 then (if c'.kind == 2 then deepEqOL vs vs' else some false)
+      else if c.kind == 1 then (if c == c' then deepEqOL vs vs' else some false)
+      else some (oid == oid')
+    | .tuple _ ys => if c.kind == 2 then deepEqOL vs ys else some false
+    | _ => some false
+  | .none, b => eqScalarO .none b
+  | .bool x, b => eqScalarO (.bool x) b
+  | .int x, b => eqScalarO (.int x) b
+  | .float x, b => eqScalarO (.float x) b
+  | .decimal x, b => eqScalarO (.decimal x) b
+  | .str x, b => eqScalarO (.str x) b
+  | .bytes x, b => eqScalarO (.bytes x) b
+  | .uuid x, b => eqScalarO (.uuid x) b
+  | .date x, b => eqScalarO (.date x) b
+  | .datetime x o, b => eqScalarO (.datetime x o) b
+  | .set o xs, b => some (pyEq (.set o xs) b)
+  | .nothing, b => some (pyEq .nothing b)
+termination_by structural x => x
+/-- element by element over the common prefix, then the lengths -/
+def deepEqOL : List PyVal → List PyVal → Option Bool
+  | x :: xs, y :: ys =>
+    match deepEqO x y with
+    | none => none
+    | some false => some false
+    | some true => deepEqOL xs ys
+  | [], [] => some true
+  | _, _ => some false
+termination_by structural x => x
+/-- the values of the first dict against the second's, key by key in the first's order -/
+def deepEqOD : List (PyVal × PyVal) → List (PyVal × PyVal) → Option Bool
+  | [], _ => some true
+  | (k, v) :: rest, o =>
+    match dictGet o k with
+    | none => some false
+    | some v' =>
+      match deepEqO v v' with
+      | none => none
+      | some false => some false
+      | some true => deepEqOD rest o
+termination_by structural x => x
+end
+
+def anyO (f : PyVal → Option Bool) : List PyVal → Option Bool
+  | [] => some false
+  | y :: ys =>
+    match f y with
+    | none => none
+    | some true => some true
+    | some false => anyO f ys
+
+/-- `UniqueItems.__call__` when a signalling NaN is about: `us` is `unhashable_items` in insertion order, searched
+    from the front; `none` = a comparison raised `InvalidOperation` -/
+def uniqueLoopO : List PyVal → List PyVal → List PyVal → Option Bool
+  | [], _, _ => some true
+  | x :: xs, hs, us =>
+    if hashable x then
+      if hs.any (typedEq x) then some false else uniqueLoopO xs (x :: hs) us
+    else
+      match anyO (fun y => if y.ty == x.ty then deepEqO y x else some false) us with
+      | none => none
+      | some true => some false
+      | some false => uniqueLoopO xs hs (us ++ [x])
+
 /-! ### predicates -/
 
 inductive PredK
@@ -299,7 +416,12 @@ def PredK.call : PredK → PyVal → Except Exn Bool
   | .exactItemCount n, x => lenCmp x (fun l => decide (l = n))
   | .uniqueItems, x =>
     match pyIter x with
-    | some xs => .ok (uniqueLoop xs [] [])
+    | some xs =>
+      if snanInsideL xs then
+        (match uniqueLoopO xs [] [] with
+         | some b => .ok b
+         | none => .error .invalidOperation)
+      else .ok (uniqueLoop xs [] [])
     | none => .error .typeError
   | .minKeys n, x => lenCmp x (fun l => decide (l ≥ n))
   | .maxKeys n, x => lenCmp x (fun l => decide (l ≤ n))
